@@ -242,6 +242,14 @@ def run(chk, P):
     chk.floor('R18.4', 1)
     r18_5(chk, P)
     chk.floor('R18.5', 70)
+    chk.rule('R18.6', 'decode scratch from the block arena is initialised whatever the arena held: the block arena is reset '
+             '(_vorbis_block_ripcord) before any _vorbis_block_alloc or mapping call of vorbis_synthesis / _trackonly, and in every '
+             'mapping inverse function the zeroing memset of vb->pcm[i] runs for every channel (it depends on nothing but the '
+             'channel loop) before the residue decode adds into it -- a channel that skipped it would carry whatever the '
+             'previously freed memory contained (same obligations as R11.3)')
+    from rules import c11
+    c11.r11_3(common.Proxy(chk, 'R18.6'), P)
+    chk.floor('R18.6', 3)
     selftest(chk, P)
     unk = sorted({u for S in E.st.values() for u in S.unknown_calls})
     chk.notes.append(f'K3: fixpoint in {E.iterations} rounds; {nsites} direct store/free sites classified; '
